@@ -40,7 +40,9 @@ C14(r) ==
     bw_ordered   |-> All(r, LAMBDA rk : SeriesOrdered(rk.bw)),
     bw_nonneg    |-> All(r, LAMBDA rk : \A j \in DOMAIN rk.bw : rk.bw[j].val >= 0),
     ce_queue     |-> All(r, LAMBDA rk : CEMatch(rk.ceq, rk.q, r.minTs, FALSE)),
-    ce_bw        |-> All(r, LAMBDA rk : CEMatch(rk.cebw, rk.bw, r.minTs, TRUE)) ]
+    ce_bw        |-> All(r, LAMBDA rk : CEMatch(rk.cebw, rk.bw, r.minTs, TRUE)),
+    \* beyond the property: one blocked-time row per (rank, stream) that reaches the length, with the time read off the series
+    beyond_blocked_time |-> r.blockedErr = "" /\ All(r, LAMBDA rk : Range(rk.blocked) = BlockedRows(rk.q, 1) \cup BlockedRows(rk.q, 2)) ]
 
 \* ---- C15
 C15(r) ==
